@@ -1,4 +1,5 @@
 """C09 — every evaluation leaves the engine's scope/call stack as it found it."""
+import re
 from irbmc import core
 from irbmc.core import Harness
 from props.engine_family import FAM, DE
@@ -64,6 +65,92 @@ def ranged_for_harness():
     h.need_globals = ['_ZTIN10chaiscript9exception10eval_errorE', '_ZTIN10chaiscript11Boxed_ValueE', '_ZTISt6vectorIN10chaiscript11Boxed_ValueESaIS1_EE', '_ZTISt3mapINSt7__cxx1112basic_stringIcSt11char_traitsIcESaIcEEEN10chaiscript11Boxed_ValueESt4lessIS5_ESaISt4pairIKS5_S7_EEE']
     return h
 
+def eval_function_harness(tier='quick', subset=False):
+    """the frame of every script function / lambda / method / guard: real eval::detail::eval_function"""
+    rx = r'chaiscript::eval::detail::eval_function<'
+    stubs = [r'AST_Node_Impl<.*>::eval\(', r'Stack_Push_Pop::', r'chaiscript::detail::Dispatch_State::(add_object|stack_holder|Dispatch_State)\(', r'std::_Rb_tree_increment']
+    g, info = core.translate(FAM, [rx], stubs + core.STRING_MODEL, tag='EF_probe', cuts=[r'Boxed_Value::~Boxed_Value'])
+    ext = [e.split('|')[0].strip() for e in info['ext']]
+    def one(pat):
+        m = [e for e in ext if re.search(pat, e)]
+        if len(m) != 1: raise core.BuildError('C09 eval_function: expected exactly one external matching %s, found %d' % (pat, len(m)))
+        return 'F_' + core.cname(m[0])
+    d = {'EVAL_FUNCTION': core.csym(FAM, rx), 'DS_CTOR': one(r'14Dispatch_StateC[12]E'), 'STACK_HOLDER': one(r'14Dispatch_State12stack_holderEv'), 'SPP_CTOR': one(r'14Stack_Push_PopC[12]E'), 'SPP_DTOR': one(r'14Stack_Push_PopD[12]E'),
+         'ADD_OBJECT': one(r'14Dispatch_State10add_objectE'), 'RB_INCREMENT': one(r'_Rb_tree_increment'), 'NODE_EVAL_CHILD': one(r'13AST_Node_Impl.*4evalERKNS_6detail14Dispatch_StateE$')}
+    W = ('witness: binding throws', 'witness: body returns', 'witness: return statement', 'witness: body throws')
+    shapes = []
+    for np_ in (0, 1, 2):
+        for nl in (-1, 0, 1, 2):
+            for top in (0, 1):
+                if tier == 'quick' and ((nl == 2 and np_ == 2) or (nl == 0 and top == 0)): continue
+                if subset and tier == 'quick' and (np_, nl, top) not in ((2, 1, 1), (1, -1, 1), (2, -1, 0), (0, 2, 1), (0, -1, 0)): continue      # the full shape list runs under C09
+                w = W + (('witness: attribute-held this',) if top else ()) + (('witness: two bindings',) if np_ + max(nl, 0) >= 2 else ())
+                if np_ + max(nl, 0) == 0 and top == 0: w = tuple(x for x in w if x != 'witness: binding throws')
+                shapes.append(dict(d, NP=np_, NL=nl, TOP=top, _tag='params=%d,captures=%s,caller scope entries=%d' % (np_, 'none' if nl < 0 else nl, top), _witness=w))
+    h = Harness('N.eval_function', FAM, [rx], 'c03_eval_function.c', stubs=stubs, cuts=[r'Boxed_Value::~Boxed_Value'], shapes=shapes,
+                opts=['--unwind', '10', '--unwindset', 'F_memcmp.0:8'], timeout=600, mem_gb=8, string_model=True,
+                inputs=['body_beh', 'add_throw_at', 'has_this_capture', 'names', 'top_entry'],
+                note='0-2 parameters (names symbolic, 1-5 bytes, possibly "this"), captures map absent / 0-2 entries, caller scope empty or ending in one entry with a symbolic name (possibly "__this"); body returns / return statement / 6 exception kinds; a binding may throw at any position')
+    h.need_globals = ['_ZTIN10chaiscript9exception10eval_errorE', '_ZTIN10chaiscript11Boxed_ValueE', '_ZTIN10chaiscript4eval6detail12Return_ValueE']
+    return h
+
+CARRIERS = {1: ('Return', 'Return_AST_Node'), 2: ('Break', 'Break_AST_Node'), 3: ('Continue', 'Continue_AST_Node'), 4: ('File', 'File_AST_Node'), 5: ('Id', 'Id_AST_Node'), 6: ('Var_Decl', 'Var_Decl_AST_Node'),
+            7: ('Reference', 'Reference_AST_Node'), 8: ('Global_Decl', 'Global_Decl_AST_Node')}
+def carrier_harness(kind):
+    """the small statement nodes: Return / Break / Continue / File / Id / Var_Decl / Reference / Global_Decl"""
+    nm, cls = CARRIERS[kind]
+    rx = r'chaiscript::eval::' + cls + r'<.*>::eval_internal\(chaiscript::detail::Dispatch_State const&\) const$'
+    stubs = [r'AST_Node_Impl<.*>::eval\(', r'chaiscript::detail::Dispatch_State::\w+\(', r'chaiscript::void_var', r'chaiscript::Boxed_Value::Object_Data::get\(\)', DE + r'add_global_no_throw']
+    cuts = [r'eval_error::', r'Boxed_Value::~Boxed_Value', r'name_conflict_error::']
+    g, info = core.translate(FAM, [rx], stubs + core.STRING_MODEL, tag='CR_probe', cuts=cuts)
+    ext = [e.split('|')[0].strip() for e in info['ext']]
+    def opt(pat):
+        m = [e for e in ext if re.search(pat, e)]
+        if len(m) > 1: raise core.BuildError('C09 carriers: %d externals match %s' % (len(m), pat))
+        return ('F_' + core.cname(m[0])) if m else None
+    TI = {'TI_BREAK': '_ZTIN10chaiscript4eval6detail10Break_LoopE', 'TI_CONTINUE': '_ZTIN10chaiscript4eval6detail13Continue_LoopE', 'TI_RETURN_VALUE': '_ZTIN10chaiscript4eval6detail12Return_ValueE',
+          'TI_NAME_CONFLICT': '_ZTIN10chaiscript9exception19name_conflict_errorE'}
+    d = {'KIND': kind, 'NODE_EVAL': core.csym(FAM, rx), 'STRING_LITERALS_OPAQUE': 1}
+    for k, pat in (('NODE_EVAL_CHILD', r'13AST_Node_Impl.*4evalERKNS_6detail14Dispatch_StateE$'), ('VOID_VAR', r'^_ZN10chaiscript8void_varEv$'), ('OD_GET_UNDEF', r'11Object_Data3getEv$'), ('GET_OBJECT', r'14Dispatch_State10get_objectE'),
+                   ('ADD_OBJECT', r'14Dispatch_State10add_objectE'), ('ADD_GLOBAL_NO_THROW', r'19add_global_no_throwE')):
+        v = opt(pat); d[k] = v if v else 'unused_' + k.lower()
+    for k, v in TI.items(): d[k] = '((char*)&g_%s)' % v
+    W = {1: {0: ('witness: return',), 1: ('witness: return', 'witness: expression throws')}, 2: {0: ('witness: signal',)}, 3: {0: ('witness: signal',)},
+         4: {0: ('witness: completes',), 1: ('witness: completes', 'witness: stray loop control', 'witness: statement throws'), 2: ('witness: completes', 'witness: stray loop control', 'witness: statement throws'), 3: ('witness: completes', 'witness: stray loop control', 'witness: statement throws')},
+         5: {0: ('witness: found', 'witness: foreign exception', 'witness: not found')}, 6: {1: ('witness: declared', 'witness: redefinition', 'witness: other exception')}, 7: {1: ('witness: declared', 'witness: other exception')},
+         8: {1: ('witness: reference form', 'witness: plain form')}}
+    shapes = [dict(d, NCH=n, _tag='children=%d' % n, _witness=w) for n, w in W[kind].items()]
+    h = Harness('N.' + nm, FAM, [rx], 'c03_carriers.c', stubs=stubs, cuts=cuts, shapes=shapes, opts=['--unwind', '8'], timeout=300, mem_gb=6, string_model=True, inputs=['behav', 'lookup_beh', 'add_beh'],
+                note='children abstract (value / eval_error / runtime_error / out_of_range / std::exception / Boxed_Value / foreign / Break_Loop / Continue_Loop / Return_Value); engine calls (get_object, add_object, add_global_no_throw) are recorders that return or throw')
+    h.need_globals = ['_ZTIN10chaiscript9exception10eval_errorE', '_ZTIN10chaiscript11Boxed_ValueE'] + list(TI.values())
+    return h
+
+def guards_harness():
+    """S1: the real RAII guards Scope_Push_Pop / Function_Push_Pop / Stack_Push_Pop over counter stubs of the primitives"""
+    G = r'chaiscript::eval::detail::'
+    DSt = r'chaiscript::detail::Dispatch_State const&'
+    stubs = [r'chaiscript::detail::Dispatch_State::\w+\(', DE + r'(new_scope|pop_scope|new_stack|pop_stack|new_function_call|pop_function_call|save_function_params)\(']
+    names = {1: 'Scope_Push_Pop', 2: 'Function_Push_Pop', 3: 'Stack_Push_Pop'}
+    roots = []
+    for n in names.values(): roots += [G + n + r'::' + n + r'\(' + DSt + r'\)$', G + n + r'::~' + n + r'\(\)$']
+    roots.append(G + r'Function_Push_Pop::save_params\(')
+    g, info = core.translate(FAM, roots, stubs + core.STRING_MODEL, tag='S1_probe', cuts=[r'eval_error::'])
+    ext = [e.split('|')[0].strip() for e in info['ext']]
+    def one(pat):
+        m = [e for e in ext if re.search(pat, e)]
+        if len(m) != 1: raise core.BuildError('C09 S1: expected exactly one external matching %s, found %d' % (pat, len(m)))
+        return 'F_' + core.cname(m[0])
+    d = {'DS_STACK_HOLDER': one(r'14Dispatch_State12stack_holderEv'), 'DS_CONV_SAVES': one(r'14Dispatch_State16conversion_savesEv'), 'NEW_SCOPE': one(r'15Dispatch_Engine9new_scopeE'), 'POP_SCOPE': one(r'15Dispatch_Engine9pop_scopeE'),
+         'NEW_STACK': one(r'15Dispatch_Engine9new_stackE'), 'POP_STACK': one(r'15Dispatch_Engine9pop_stackE'), 'NEW_CALL': one(r'15Dispatch_Engine17new_function_callE'), 'POP_CALL': one(r'15Dispatch_Engine17pop_function_callE'),
+         'SAVE_PARAMS': one(r'15Dispatch_Engine20save_function_paramsERKNS_15Function_ParamsE')}
+    shapes = []
+    for k, n in names.items():
+        shapes.append(dict(d, GUARD=k, G_CTOR=core.csym(FAM, G + n + r'::' + n + r'\(' + DSt + r'\)$'), G_DTOR=core.csym(FAM, G + n + r'::~' + n + r'\(\)$'), G_SAVE=core.csym(FAM, G + r'Function_Push_Pop::save_params\('),
+                           _tag=n, _witness=('witness: constructed and destroyed',)))
+    for sh in shapes: sh['STRING_LITERALS_OPAQUE'] = 1
+    return Harness('S1.guards(push in the constructor, pop in the destructor)', FAM, roots, 'c09_guards.c', stubs=stubs, cuts=[r'eval_error::'], string_model=True, shapes=shapes, opts=['--unwind', '4'], timeout=120, mem_gb=4, inputs=['d0'],
+                   note='call depth symbolic; the six primitives are counters that move the holder (their real code: S0)')
+
 def stack_harness(tier):
     SH = r'chaiscript::detail::Stack_Holder&'
     names = {1: 'new_scope', 2: 'pop_scope', 3: 'new_stack', 4: 'pop_stack', 5: 'new_function_call', 6: 'pop_function_call', 7: 'new_scope+pop_scope'}
@@ -78,17 +165,20 @@ def stack_harness(tier):
                 for spare in (0, 1):
                     if op == 4 and ns == 1: continue       # the outermost stack is never popped
                     wit = ('witness: outermost', 'witness: nested') if op in (5, 6) else ('witness: done',)
-                    shapes.append(dict(d, OP=op, NS=ns, S=sc, C=sc, SPARE=spare, _tag='%s,stacks=%d,scopes=%d,spare=%d' % (nm, ns, sc, spare), _witness=wit))
+                    for nsv in ((0, 2) if op in (5, 6) else (1,)):       # conversion temporaries waiting in Conversion_Saves (call frames only)
+                        shapes.append(dict(d, OP=op, NS=ns, S=sc, C=sc, SPARE=spare, NSV=nsv, _tag='%s,stacks=%d,scopes=%d,spare=%d' % (nm, ns, sc, spare) + (',waiting conversion temporaries=%d' % nsv if op in (5, 6) else ''), _witness=wit))
     return Harness('S0.stack_primitives', FAM, roots, 'c09_stack.c', stubs=stubs, cuts=[r'Boxed_Value::~Boxed_Value'], shapes=shapes, opts=['--unwind', '5'], timeout=300, mem_gb=6, inputs=['d0'],
                    note='Stack_Holder image with 1-2 stacks, 1-2 scopes / saved-parameter lists, with and without spare vector capacity; call depth symbolic')
 
 def harnesses(tier):
     from props import C10, C07
-    hs = [node_harness(k) for k in KINDS] + [ranged_for_harness(), stack_harness(tier)]
+    hs = [node_harness(k) for k in KINDS] + [ranged_for_harness(), eval_function_harness(tier), stack_harness(tier), guards_harness()] + [carrier_harness(k) for k in CARRIERS]
     t = C10.try_harness(tier); t.name = 'N.Try(scope balance)'; hs.append(t)
     e = C07.equation_harness(); e.name = 'N.Equation(call balance)'; hs.append(e)
+    for h, nm in ((C10.funcall_harness(True, True), 'N.Fun_Call<saving> with arguments'), (C10.funcall_harness(False), 'N.Fun_Call<no-copy>'), (C10.array_call_harness(), 'N.Array_Call'), (C10.dot_access_harness(tier), 'N.Dot_Access'), (C10.attribute_call_harness(), 'N.This_Foist(attribute-held function call)')):
+        h.name = nm; hs.append(h)        # one call frame pushed and popped on every exit
     return hs
 
 ASSUMPTIONS = ['children and get_bool_condition are abstract; in the node harnesses new_scope/pop_scope are counters - their real code on a Stack_Holder image is harness S0',
                'the induction over the tree (each node restores the depth if its children do) is an argument, not something the solver sees']
-OUTSIDE = ['nodes not listed (Lambda, Def, Dot_Access, Array_Call, Method ...; Fun_Call: C10 X4)', 'Thread_Storage lookup of the holder (C14)']
+OUTSIDE = ['nodes not listed (Lambda, Def, Method, Class, Attr_Decl: they build function objects through make_dynamic_proxy_function / std::function)', 'Thread_Storage lookup of the holder (C14)']
